@@ -411,6 +411,9 @@ def decorator(u):
             dict(name='fn_decorated_after', params=[('first', 'Z'), ('kind', 'Z'), ('ex_neg', 'B'), ('ex_inv', 'B'), ('ex_unx', 'B')], result='S', call=run_twice)]
 
 
+CTX_KINDS = ('bare_after_wait', 'after_wait_block', 'ov_const', 'ov_fun', 'after_ov')
+
+
 def send_request(u):
     """C05 / C06 / C09 / C15: the real Client.send_request on a symbolic clock - symbolic timeouts (request_timeout, p2, p2*), symbolic
     start time and symbolic arrival instants of the frames of a schedule of fixed shape (kinds of frames chosen per function)"""
@@ -426,7 +429,7 @@ def send_request(u):
     class Clock:
         pass
 
-    def make(shape, overall, spr=None, cb=False, percall=False, server=False, flush=False):
+    def make(shape, overall, spr=None, cb=False, percall=False, server=False, flush=False, ctx=None):
         def f(*args):
             args = list(args)
             T = args.pop(0) if overall else None
@@ -477,7 +480,27 @@ def send_request(u):
                     c.session_timing.p2_server_max, c.session_timing.p2_star_server_max = S2, S2S
                 req = Request(services.TesterPresent, subfunction=0)
                 try:
-                    if spr is None:
+                    if ctx == 'bare_after_wait':
+                        # an earlier block asked to wait for negative replies; this one is entered in the bare form
+                        with c.suppress_positive_response(wait_nrc=True):
+                            pass
+                        with c.suppress_positive_response:
+                            r = c.send_request(req)
+                    elif ctx == 'after_wait_block':
+                        with c.suppress_positive_response(wait_nrc=True):
+                            pass
+                        r = c.send_request(req)
+                    elif ctx == 'ov_const':
+                        with c.payload_override(b'\x11\x22\x33'):
+                            r = c.send_request(req)
+                    elif ctx == 'ov_fun':
+                        with c.payload_override(lambda p: b'\xaa' + p + b'\xbb\xcc'):
+                            r = c.send_request(req)
+                    elif ctx == 'after_ov':
+                        with c.payload_override(b'\x11\x22\x33'):
+                            pass
+                        r = c.send_request(req)
+                    elif spr is None:
                         r = c.send_request(req, timeout=Tp) if percall else c.send_request(req)
                     else:
                         with c.suppress_positive_response(wait_nrc=spr):
@@ -525,6 +548,10 @@ def send_request(u):
                       call=make(shape, True, percall=True)))
     for shape in ('P', 'PP', 'WP', 'NP'):               # frames that arrived before the call are flushed, not taken for the answer (no hypothesis on the instants)
         L.append(dict(name='fn_send_request_flush_%s' % shape, params=[('T', 'Z')] + base + arr(shape), result='S', call=make(shape, True, flush=True)))
+    for ctx in ('bare_after_wait', 'after_wait_block', 'ov_const', 'ov_fun', 'after_ov'):      # what the context managers leave behind / put on the wire
+        for shape in ('', 'P'):
+            L.append(dict(name='fn_send_request_%s_%s' % (ctx, shape or 'silence'), params=[('T', 'Z')] + base + arr(shape), result='S',
+                          call=make(shape, True, flush=True, ctx=ctx)))
     for shape in ('', 'P', 'W'):                        # ... with request_timeout None in the configuration
         L.append(dict(name='fn_send_request_percall_no_overall_%s' % (shape or 'silence'), params=[('Tp', 'Z')] + base + arr(shape), result='S',
                       call=make(shape, False, percall=True)))
@@ -600,7 +627,10 @@ def files(u):
              pick(['fn_alfid_byte', 'fn_commtype_byte', 'fn_commtype_from_byte', 'fn_dfi_byte', 'fn_dfi_from_byte', 'fn_baud', 'fn_baud_bytes', 'fn_baud_effective'])),
             ('Fn_Filesize.v', 'udsoncan/common/Filesize.py', pick(['fn_filesize_width'])),
             ('Fn_Unlock.v', 'udsoncan/client.py (unlock_security_access, request_seed, send_key; send_request replaced by two scripted replies)', unlock),
-            ('Fn_SendRequest.v', 'udsoncan/client.py (send_request, on a symbolic clock)', send_request),
+            ('Fn_SendRequest.v', 'udsoncan/client.py (send_request, on a symbolic clock)',
+             lambda u: [sp for sp in send_request(u) if not any(k in sp['name'] for k in CTX_KINDS)]),
+            ('Fn_SendContext.v', 'udsoncan/client.py (send_request on a symbolic clock, inside / after suppress_positive_response and payload_override blocks)',
+             lambda u: [sp for sp in send_request(u) if any(k in sp['name'] for k in CTX_KINDS)]),
             ('Fn_Decorator.v', 'udsoncan/client.py (standard_error_management)', decorator),
             ('Fn_Edition.v', 'udsoncan/client.py (__init__, set_config, set_configs, refresh_config, validate_config, clear_dtc, communication_control)', edition),
             ('Fn_SimpleReq.v', 'udsoncan/client.py (the methods up to the call of send_request), udsoncan/services/*.py, Request.py',
